@@ -328,3 +328,40 @@ Proof.
   exists s. split; [reflexivity|]. split; [eapply run_reach; [constructor|exact E]|].
   vm_compute in E. injection E as <-. repeat split; reflexivity.
 Qed.
+
+(* ---------------------------------------------------------------- the driver level stays inside the small-step system *)
+Lemma first_some_spec {A B} (f : A -> option B) l y : first_some f l = Some y -> exists x, In x l /\ f x = Some y.
+Proof.
+  induction l as [|a l IH]; simpl; [discriminate|]. destruct (f a) eqn:E.
+  - intros [= <-]. exists a. auto.
+  - intros H. destruct (IH H) as (x & Hin & Hx). exists x. auto.
+Qed.
+
+Lemma internal_step_reach kids k d d' : reach (d_s d) -> internal_step kids k d = Some d' -> reach (d_s d').
+Proof.
+  intros R. unfold internal_step.
+  destruct (first_some (internal_label kids d) (seq 0 k)) as [l|] eqn:E.
+  - destruct (step (d_s d) l) eqn:E2; [|discriminate]. intros [= <-]. simpl. econstructor; eauto.
+  - destruct (d_held d); [discriminate|].
+    match goal with |- context[first_some ?f ?l] => destruct (first_some f l) as [l0|] eqn:E3 end; [|discriminate].
+    destruct (step (d_s d) l0) eqn:E2; [|discriminate]. intros [= <-]. simpl. econstructor; eauto.
+Qed.
+
+Lemma quiesce_reach kids k fuel : forall d, reach (d_s d) -> reach (d_s (quiesce kids k fuel d)).
+Proof.
+  induction fuel as [|f IH]; intros d R; simpl; [assumption|].
+  destruct (internal_step kids k d) as [d'|] eqn:E; [|assumption]. apply IH. eapply internal_step_reach; eauto.
+Qed.
+
+Theorem drive_reach kids k d a : reach (d_s d) -> reach (d_s (fst (drive kids k d a))).
+Proof.
+  intros R. unfold drive. destruct (drive1 d a) as [d'|] eqn:E; cbn [fst]; [|assumption].
+  apply quiesce_reach. destruct a; cbn [drive1] in E.
+  - destruct (step (d_s d) (LCall n)) eqn:E2; [|discriminate]. injection E as <-. simpl. econstructor; eauto.
+  - destruct (mem n (d_gated d)); [|discriminate].
+    destruct (step (d_s d) (LCreate n)) eqn:E2; [|discriminate]. injection E as <-. simpl. econstructor; eauto.
+  - destruct (node (d_s d n)) as [q|]; [|discriminate].
+    destruct (step (d_s d) (LStop n q)) eqn:E2; injection E as <-; simpl; [econstructor; eauto|assumption].
+  - injection E as <-. assumption.
+  - injection E as <-. assumption.
+Qed.
